@@ -23,7 +23,205 @@ Fixpoint run_removals (flags : list (bool * bool)) (acc : accessor) (m : lmap) :
 (* number of arcs of an accessor *)
 Definition arc_count (acc : accessor) : Z := sumZ (map out_degree acc).
 
-(* TARGET STATEMENTS (to be proved, do not change the statements):
+(* ---- set_nth -------------------------------------------------------------------------------- *)
+Lemma set_nth_length : forall (A : Type) (l : list A) i x, length (set_nth l i x) = length l.
+Proof.
+  intros A. induction l as [|y t IH]; intros i x; [reflexivity|].
+  destruct i as [|i]; cbn [set_nth length]; [reflexivity|]. rewrite IH. reflexivity.
+Qed.
+
+Lemma nth_set_nth_eq : forall (A : Type) (l : list A) i x d, (i < length l)%nat -> nth i (set_nth l i x) d = x.
+Proof.
+  intros A. induction l as [|y t IH]; intros i x d Hi; cbn [length] in Hi; [lia|].
+  destruct i as [|i]; cbn [set_nth nth]; [reflexivity|]. apply IH. lia.
+Qed.
+
+Lemma nth_set_nth_neq : forall (A : Type) (l : list A) i j x d, i <> j -> nth j (set_nth l i x) d = nth j l d.
+Proof.
+  intros A. induction l as [|y t IH]; intros i j x d Hne; [reflexivity|].
+  destruct i as [|i], j as [|j]; cbn [set_nth nth]; try reflexivity; [lia|]. apply IH. lia.
+Qed.
+
+Lemma Forall_set_nth : forall (A : Type) (P : A -> Prop) l i x, Forall P l -> P x -> Forall P (set_nth l i x).
+Proof.
+  intros A P. induction l as [|y t IH]; intros i x HF Hx; [constructor|].
+  inversion HF as [|? ? Hy Ht]; subst.
+  destruct i as [|i]; cbn [set_nth]; constructor; try assumption. apply IH; assumption.
+Qed.
+
+(* two-level update *)
+Lemma nth2_set : forall (sc : list (list Z)) v c y u j d1 d2 e,
+  (v < length sc)%nat -> (c < length (nth v sc d1))%nat ->
+  nth j (nth u (set_nth sc v (set_nth (nth v sc d1) c y)) d2) e =
+  if Nat.eqb u v && Nat.eqb j c then y else nth j (nth u sc d2) e.
+Proof.
+  intros sc v c y u j d1 d2 e Hv Hc.
+  destruct (Nat.eqb_spec u v) as [->|Hne]; cbn [andb].
+  - rewrite nth_set_nth_eq by exact Hv.
+    destruct (Nat.eqb_spec j c) as [->|Hne].
+    + apply nth_set_nth_eq. exact Hc.
+    + rewrite nth_set_nth_neq by lia. rewrite (nth_indep sc d1 d2 Hv). reflexivity.
+  - rewrite nth_set_nth_neq by lia. reflexivity.
+Qed.
+
+(* ---- the score table ---------------------------------------------------------------------- *)
+Definition sc_ok (k : nat) (acc : accessor) (sc : scores_t) : Prop :=
+  length sc = Z.to_nat (pow4 k) /\ Forall (fun r => length r = 4%nat) sc
+  /\ (forall u j, 0 <= u < pow4 k -> 0 <= j < 4 -> 0 <= score_at sc u j)
+  /\ (forall u j, 0 <= u < pow4 k -> 0 <= j < 4 -> 0 < score_at sc u j -> 0 <= entry acc u j).
+
+Lemma sc_row_len : forall k acc sc u d, sc_ok k acc sc -> 0 <= u < pow4 k -> length (nth (Z.to_nat u) sc d) = 4%nat.
+Proof.
+  intros k acc sc u d [Hlen [HF _]] Hu. rewrite Forall_forall in HF. apply HF. apply nth_In. lia.
+Qed.
+
+Lemma add_score_ok : forall k acc sc v c x, sc_ok k acc sc ->
+  0 <= v < pow4 k -> 0 <= c < 4 -> 0 <= x -> 0 <= entry acc v c ->
+  exists sc', add_score sc v c x = Ok sc' /\ sc_ok k acc sc'.
+Proof.
+  intros k acc sc v c x Hok Hv Hc Hx He.
+  pose proof (sc_row_len k acc sc v [0; 0; 0; 0] Hok Hv) as Hrl.
+  destruct Hok as [Hlen [HF [Hnn Hpos]]].
+  unfold add_score. rewrite Hlen, Z2Nat.id by lia.
+  replace (v <? 0) with false by lia. replace (v <? 0) with false by lia.
+  replace (pow4 k <=? v) with false by lia. cbn [orb].
+  eexists. split; [reflexivity|].
+  assert (Hcell : forall u j, 0 <= u < pow4 k -> 0 <= j < 4 ->
+    score_at (set_nth sc (Z.to_nat v) (set_nth (nth (Z.to_nat v) sc [0; 0; 0; 0]) (Z.to_nat c)
+                 (nth (Z.to_nat c) (nth (Z.to_nat v) sc [0; 0; 0; 0]) 0 + x))) u j =
+    if (u =? v) && (j =? c) then score_at sc v c + x else score_at sc u j).
+  { intros u j Hu Hj. unfold score_at. rewrite nth2_set by lia.
+    destruct (Nat.eqb_spec (Z.to_nat u) (Z.to_nat v)) as [E1|E1];
+    destruct (Nat.eqb_spec (Z.to_nat j) (Z.to_nat c)) as [E2|E2]; cbn [andb].
+    - replace (u =? v) with true by lia. replace (j =? c) with true by lia. cbn [andb].
+      rewrite (nth_indep sc [0; 0; 0; 0] []) by lia. reflexivity.
+    - replace (j =? c) with false by lia. rewrite andb_false_r. reflexivity.
+    - replace (u =? v) with false by lia. reflexivity.
+    - replace (u =? v) with false by lia. reflexivity. }
+  split; [rewrite set_nth_length; exact Hlen|].
+  split; [apply Forall_set_nth; [exact HF|rewrite set_nth_length; exact Hrl]|].
+  split.
+  - intros u j Hu Hj. rewrite Hcell by assumption.
+    destruct ((u =? v) && (j =? c)); [|apply Hnn; assumption].
+    specialize (Hnn v c Hv Hc). lia.
+  - intros u j Hu Hj. rewrite Hcell by assumption.
+    destruct ((u =? v) && (j =? c)) eqn:E; [|apply Hpos; assumption].
+    intros _. assert (u = v) by lia. assert (j = c) by lia. subst. exact He.
+Qed.
+
+Lemma add_all_ok : forall k acc v items sc, sc_ok k acc sc -> 0 <= v < pow4 k ->
+  Forall (fun it => 0 <= fst it < 4 /\ 0 <= snd it /\ 0 <= entry acc v (fst it)) items ->
+  exists sc', add_all sc v items = Ok sc' /\ sc_ok k acc sc'.
+Proof.
+  intros k acc v. induction items as [|[c x] t IH]; intros sc Hok Hv HF; cbn [add_all].
+  - exists sc. split; [reflexivity|exact Hok].
+  - inversion HF as [|? ? [Hc [Hx He]] Ht]; subst. cbn [fst snd] in *.
+    destruct (add_score_ok k acc sc v c x Hok Hv Hc Hx He) as [s [Es Hs]].
+    rewrite Es. cbn [bind]. apply IH; assumption.
+Qed.
+
+Lemma pairs_of_In : forall (A : Type) (l : list A) a b, In (a, b) (pairs_of l) -> In a l /\ In b l.
+Proof.
+  intros A. induction l as [|x t IH]; intros a b H; cbn [pairs_of] in H; [contradiction|].
+  apply in_app_or in H. destruct H as [H|H].
+  - apply in_map_iff in H. destruct H as [y [E Hy]]. inversion E; subst.
+    split; [left; reflexivity|right; exact Hy].
+  - destruct (IH a b H) as [H1 H2]. split; right; assumption.
+Qed.
+
+Lemma union_len_nonneg : forall a b, 0 <= union_len a b.
+Proof. intros a b. unfold union_len. lia. Qed.
+
+Lemma vertex_scores_items : forall m depth ins del cur lats,
+  Forall (fun it => exists l, In l lats /\ fst it = l mod 4 /\ 0 <= snd it) (vertex_scores m depth ins del cur lats).
+Proof.
+  intros m depth ins del cur lats. unfold vertex_scores.
+  set (branches := map (fun l => (l, leaves_map depth m [l])) lats).
+  assert (HB : forall l b, In (l, b) branches -> In l lats).
+  { intros l b H. unfold branches in H. apply in_map_iff in H. destruct H as [l' [E Hl]].
+    inversion E; subst. exact Hl. }
+  rewrite Forall_forall. intros it Hit.
+  apply in_app_or in Hit. destruct Hit as [Hit|Hit]; [|apply in_app_or in Hit; destruct Hit as [Hit|Hit]].
+  - apply in_flat_map in Hit. destruct Hit as [[[l1 b1] [l2 b2]] [Hp Hit]].
+    apply pairs_of_In in Hp. destruct Hp as [H1 H2]. cbn [In] in Hit.
+    destruct Hit as [E|[E|[]]]; subst it; cbn [fst snd].
+    + exists l1. split; [apply (HB l1 b1 H1)|]. split; [reflexivity|apply union_len_nonneg].
+    + exists l2. split; [apply (HB l2 b2 H2)|]. split; [reflexivity|apply union_len_nonneg].
+  - destruct ins; [|contradiction]. apply in_flat_map in Hit. destruct Hit as [[l b] [Hlb Hit]].
+    destruct (lookup m l) as [ls|]; [|contradiction].
+    apply in_map_iff in Hit. destruct Hit as [l2 [E _]]. subst it. cbn [fst snd].
+    exists l. split; [apply (HB l b Hlb)|]. split; [reflexivity|apply union_len_nonneg].
+  - destruct del; [|contradiction]. apply in_map_iff in Hit. destruct Hit as [[l b] [E Hlb]].
+    subst it. cbn [fst snd]. exists l. split; [apply (HB l b Hlb)|]. split; [reflexivity|apply union_len_nonneg].
+Qed.
+
+(* a live successor sits in the column given by its last digit *)
+Lemma live_entry_col : forall k acc u l, (1 <= k)%nat -> legal k acc -> 0 <= u < pow4 k ->
+  In l (live_entries (get_row acc u)) -> 0 <= l mod 4 < 4 /\ entry acc u (l mod 4) = l /\ 0 <= l.
+Proof.
+  intros k acc u l Hk HL Hu Hin.
+  pose proof (good_row_col_row k u _ Hk Hu (legal_good_row k acc u HL Hu)) as [a [b [c [d [E [Ha [Hb [Hc Hd]]]]]]]].
+  unfold entry. rewrite E in Hin |- *. unfold live_entries in Hin. apply filter_In in Hin.
+  destruct Hin as [Hin Hge]. cbn [In] in Hin.
+  destruct Hin as [H|[H|[H|[H|[]]]]]; subst l.
+  - assert (M : a mod 4 = 0) by lia. rewrite M. change (Z.to_nat 0) with 0%nat. cbn [nth]. lia.
+  - assert (M : b mod 4 = 1) by lia. rewrite M. change (Z.to_nat 1) with 1%nat. cbn [nth]. lia.
+  - assert (M : c mod 4 = 2) by lia. rewrite M. change (Z.to_nat 2) with 2%nat. cbn [nth]. lia.
+  - assert (M : d mod 4 = 3) by lia. rewrite M. change (Z.to_nat 3) with 3%nat. cbn [nth]. lia.
+Qed.
+
+Lemma score_keys_ok : forall k acc m depth ins del, (1 <= k)%nat -> legal k acc ->
+  forall todo sc,
+  (forall cur lats, In (cur, lats) todo -> 0 <= cur < pow4 k /\ lats = live_entries (get_row acc cur)) ->
+  sc_ok k acc sc ->
+  exists sc', score_keys m todo depth ins del sc = Ok sc' /\ sc_ok k acc sc'.
+Proof.
+  intros k acc m depth ins del Hk HL.
+  induction todo as [|[cur lats] t IH]; intros sc Htodo Hok; cbn [score_keys].
+  - exists sc. split; [reflexivity|exact Hok].
+  - destruct (Htodo cur lats (or_introl eq_refl)) as [Hcur Hlats].
+    destruct (add_all_ok k acc cur (vertex_scores m depth ins del cur lats) sc Hok Hcur) as [s [Es Hs]].
+    { pose proof (vertex_scores_items m depth ins del cur lats) as HV.
+      rewrite Forall_forall in HV |- *. intros it Hit.
+      destruct (HV it Hit) as [l [Hl [Hf Hsn]]]. rewrite Hlats in Hl.
+      destruct (live_entry_col k acc cur l Hk HL Hcur Hl) as [H1 [H2 H3]].
+      rewrite Hf. split; [exact H1|]. split; [exact Hsn|]. rewrite H2. exact H3. }
+    rewrite Es. cbn [bind]. apply IH; [|exact Hs].
+    intros c ls Hin. apply Htodo. right. exact Hin.
+Qed.
+
+Lemma lmap_from_In : forall acc s v ls, In (v, ls) (lmap_from acc s) ->
+  s <= v < s + Z.of_nat (length acc) /\ ls = live_entries (nth (Z.to_nat (v - s)) acc empty_row).
+Proof.
+  induction acc as [|row t IH]; intros s v ls H; cbn [lmap_from] in H; [contradiction|].
+  cbn [length]. rewrite Nat2Z.inj_succ.
+  assert (Hrec : In (v, ls) (lmap_from t (s + 1)) ->
+    s <= v < s + Z.succ (Z.of_nat (length t)) /\ ls = live_entries (nth (Z.to_nat (v - s)) (row :: t) empty_row)).
+  { intros H'. destruct (IH (s + 1) v ls H') as [H1 H2]. split; [lia|].
+    rewrite nth_shift by lia. exact H2. }
+  destruct (row_listed row); [|apply Hrec; exact H].
+  destruct H as [H|H]; [|apply Hrec; exact H].
+  inversion H; subst. split; [lia|]. replace (v - v) with 0 by lia. reflexivity.
+Qed.
+
+Lemma nth_zero_row : forall n, nth n [0; 0; 0; 0] 0 = 0.
+Proof. intros n. do 5 (destruct n as [|n]; [reflexivity|]). reflexivity. Qed.
+
+Lemma sc_ok_init : forall k acc, sc_ok k acc (repeat [0; 0; 0; 0] (Z.to_nat (pow4 k))).
+Proof.
+  intros k acc.
+  assert (Hz : forall u j, score_at (repeat [0; 0; 0; 0] (Z.to_nat (pow4 k))) u j = 0).
+  { intros u j. unfold score_at.
+    destruct (Nat.lt_ge_cases (Z.to_nat u) (Z.to_nat (pow4 k))) as [Hlt|Hge].
+    - rewrite (nth_indep _ [] [0; 0; 0; 0]) by (rewrite repeat_length; exact Hlt).
+      rewrite nth_repeat. apply nth_zero_row.
+    - rewrite (nth_overflow (repeat [0; 0; 0; 0] (Z.to_nat (pow4 k))) [])
+        by (rewrite repeat_length; exact Hge).
+      destruct (Z.to_nat j); reflexivity. }
+  split; [apply repeat_length|]. split.
+  - rewrite Forall_forall. intros r Hr. apply repeat_spec in Hr. subst r. reflexivity.
+  - split; intros u j _ _; rewrite Hz; lia.
+Qed.
 
 (* scores have the accessor's shape, are non-negative, and are positive only on existing arcs *)
 Theorem score_spec : forall k acc ins del, (1 <= k)%nat -> legal k acc ->
@@ -31,6 +229,220 @@ Theorem score_spec : forall k acc ins del, (1 <= k)%nat -> legal k acc ->
              /\ length sc = Z.to_nat (pow4 k) /\ Forall (fun r => length r = 4%nat) sc
              /\ (forall u j, 0 <= u < pow4 k -> 0 <= j < 4 -> 0 <= score_at sc u j)
              /\ (forall u j, 0 <= u < pow4 k -> 0 <= j < 4 -> 0 < score_at sc u j -> 0 <= entry acc u j).
+Proof.
+  intros k acc ins del Hk HL. unfold calculate_intersection_score.
+  destruct (score_keys_ok k acc (accessor_to_latter_map acc) (k - 1) ins del Hk HL
+              (accessor_to_latter_map acc) (repeat [0; 0; 0; 0] (Z.to_nat (pow4 k)))) as [sc [E Hok]].
+  - intros cur lats Hin. unfold accessor_to_latter_map in Hin. apply lmap_from_In in Hin.
+    rewrite (legal_len k acc HL) in Hin. replace (cur - 0) with cur in Hin by lia.
+    split; [lia|]. apply (proj2 Hin).
+  - apply sc_ok_init.
+  - exists sc. split; [exact E|]. exact Hok.
+Qed.
+
+(* ---- maximum, argmax ------------------------------------------------------------------------ *)
+Lemma maxZ_ge : forall l d, d <= maxZ l d /\ forall x, In x l -> x <= maxZ l d.
+Proof.
+  unfold maxZ. induction l as [|y t IH]; intros d; cbn [fold_left].
+  - split; [lia|]. intros x [].
+  - destruct (IH (Z.max d y)) as [H1 H2]. split; [lia|].
+    intros x [Hx|Hx]; [subst; lia|apply H2; exact Hx].
+Qed.
+
+Lemma first_pos_In : forall l x s, In x l ->
+  exists p, first_pos x l s = Some p /\ s <= p < s + Z.of_nat (length l) /\ nth (Z.to_nat (p - s)) l 0 = x.
+Proof.
+  induction l as [|y t IH]; intros x s Hin; [contradiction|].
+  cbn [first_pos length]. rewrite Nat2Z.inj_succ. destruct (x =? y) eqn:E.
+  - exists s. split; [reflexivity|]. split; [lia|]. replace (s - s) with 0 by lia. cbn. lia.
+  - destruct Hin as [Hin|Hin]; [lia|].
+    destruct (IH x (s + 1) Hin) as [p [H1 [H2 H3]]]. exists p. split; [exact H1|]. split; [lia|].
+    rewrite nth_shift by lia. exact H3.
+Qed.
+
+Lemma argmax_spec : forall row mx, In mx row -> (forall x, In x row -> x <= mx) ->
+  0 <= argmaxZ row < Z.of_nat (length row) /\ nth (Z.to_nat (argmaxZ row)) row 0 = mx.
+Proof.
+  intros row mx Hin Hle. unfold argmaxZ.
+  assert (Hmax : maxZ row (hd 0 row) = mx).
+  { destruct (maxZ_ge row (hd 0 row)) as [_ H2]. specialize (H2 mx Hin).
+    assert (maxZ row (hd 0 row) <= mx); [|lia].
+    unfold maxZ. apply fold_max_le.
+    - destruct row as [|y t]; [contradiction|]. cbn [hd]. apply Hle. left. reflexivity.
+    - rewrite Forall_forall. exact Hle. }
+  rewrite Hmax. destruct (first_pos_In row mx 0 Hin) as [p [H1 [H2 H3]]]. rewrite H1.
+  replace (p - 0) with p in H3 by lia. split; [lia|exact H3].
+Qed.
+
+(* ---- clearing one live cell of a row ---------------------------------------------------------- *)
+Ltac decide_eqb :=
+  repeat match goal with
+  | |- context [?x =? ?y] =>
+      first [ replace (x =? y) with true by lia | replace (x =? y) with false by lia ]
+  end.
+
+Lemma row_clear : forall a b c d j,
+  (a = -1 \/ 0 <= a) -> (b = -1 \/ 0 <= b) -> (c = -1 \/ 0 <= c) -> (d = -1 \/ 0 <= d) ->
+  (0 <= a -> a <> b /\ a <> c /\ a <> d) -> (0 <= b -> b <> c /\ b <> d) -> (0 <= c -> c <> d) ->
+  0 <= j < 4 -> 0 <= nth (Z.to_nat j) [a; b; c; d] (-1) ->
+  remove_first (nth (Z.to_nat j) [a; b; c; d] (-1)) (live_entries [a; b; c; d])
+    = live_entries (set_nth [a; b; c; d] (Z.to_nat j) (-1))
+  /\ row_listed (set_nth [a; b; c; d] (Z.to_nat j) (-1))
+     = negb (match live_entries (set_nth [a; b; c; d] (Z.to_nat j) (-1)) with [] => true | _ => false end)
+  /\ out_degree (set_nth [a; b; c; d] (Z.to_nat j) (-1)) = out_degree [a; b; c; d] - 1.
+Proof.
+  intros a b c d j Ha Hb Hc Hd Dab Dbc Dcd Hj Hlive.
+  assert (Hc4 : j = 0 \/ j = 1 \/ j = 2 \/ j = 3) by lia.
+  destruct Hc4 as [H|[H|[H|H]]]; subst j;
+  [change (Z.to_nat 0) with 0%nat in *|change (Z.to_nat 1) with 1%nat in *
+  |change (Z.to_nat 2) with 2%nat in *|change (Z.to_nat 3) with 3%nat in *];
+  cbn [nth set_nth] in *; unfold out_degree, live_entries, row_listed; cbn [filter existsb];
+  change (0 <=? -1) with false; cbn iota;
+  (destruct (0 <=? a) eqn:Ea; [|assert (a = -1) by lia; subst a]);
+  (destruct (0 <=? b) eqn:Eb; [|assert (b = -1) by lia; subst b]);
+  (destruct (0 <=? c) eqn:Ec; [|assert (c = -1) by lia; subst c]);
+  (destruct (0 <=? d) eqn:Ed; [|assert (d = -1) by lia; subst d]);
+  try lia; cbn [remove_first]; decide_eqb; cbn [negb orb length];
+  (split; [reflexivity|split; [reflexivity|lia]]).
+Qed.
+
+Lemma lmap_remove_set : forall acc s i row' latter, (i < length acc)%nat ->
+  row_listed (nth i acc empty_row) = true ->
+  remove_first latter (live_entries (nth i acc empty_row)) = live_entries row' ->
+  row_listed row' = negb (match live_entries row' with [] => true | _ => false end) ->
+  lmap_remove (lmap_from acc s) (s + Z.of_nat i) latter = lmap_from (set_nth acc i row') s.
+Proof.
+  induction acc as [|r t IH]; intros s i row' latter Hi HL Hrem Hlisted; cbn [length] in Hi; [lia|].
+  destruct i as [|i]; cbn [nth] in HL, Hrem; cbn [lmap_from set_nth].
+  - rewrite HL. cbn [lmap_remove]. replace (s =? s + Z.of_nat 0) with true by lia.
+    rewrite Hrem, Hlisted. destruct (live_entries row'); reflexivity.
+  - assert (Hrec : lmap_remove (lmap_from t (s + 1)) (s + Z.of_nat (S i)) latter = lmap_from (set_nth t i row') (s + 1)).
+    { replace (s + Z.of_nat (S i)) with (s + 1 + Z.of_nat i) by lia. apply IH; [lia|assumption..]. }
+    destruct (row_listed r); [|exact Hrec].
+    cbn [lmap_remove]. replace (s =? s + Z.of_nat (S i)) with false by lia. rewrite Hrec. reflexivity.
+Qed.
+
+Lemma arc_count_set : forall acc i row', (i < length acc)%nat ->
+  arc_count (set_nth acc i row') = arc_count acc - out_degree (nth i acc empty_row) + out_degree row'.
+Proof.
+  unfold arc_count. induction acc as [|r t IH]; intros i row' Hi; cbn [length] in Hi; [lia|].
+  destruct i as [|i]; cbn [set_nth map nth]; rewrite !sumZ_cons; [lia|]. rewrite IH by lia. lia.
+Qed.
+
+Lemma entry_set_entry : forall acc v c x u j, 0 <= v -> (Z.to_nat v < length acc)%nat ->
+  0 <= c -> (Z.to_nat c < length (get_row acc v))%nat -> 0 <= u -> 0 <= j ->
+  entry (set_entry acc v c x) u j = if (u =? v) && (j =? c) then x else entry acc u j.
+Proof.
+  intros acc v c x u j Hv Hvl Hc Hcl Hu Hj. unfold entry, set_entry, get_row in *.
+  rewrite nth2_set by assumption.
+  destruct (Nat.eqb_spec (Z.to_nat u) (Z.to_nat v)) as [E1|E1];
+  destruct (Nat.eqb_spec (Z.to_nat j) (Z.to_nat c)) as [E2|E2]; cbn [andb].
+  - replace (u =? v) with true by lia. replace (j =? c) with true by lia. reflexivity.
+  - replace (j =? c) with false by lia. rewrite andb_false_r. reflexivity.
+  - replace (u =? v) with false by lia. reflexivity.
+  - replace (u =? v) with false by lia. reflexivity.
+Qed.
+
+Lemma filter_head_In : forall (A : Type) (f : A -> bool) l x rest, filter f l = x :: rest -> In x l /\ f x = true.
+Proof.
+  intros A f l x rest H. apply filter_In. rewrite H. left. reflexivity.
+Qed.
+
+Lemma score_at_In : forall k acc sc u j, sc_ok k acc sc -> 0 <= u < pow4 k -> 0 <= j < 4 ->
+  In (score_at sc u j) (nth (Z.to_nat u) sc []) /\ In (nth (Z.to_nat u) sc []) sc.
+Proof.
+  intros k acc sc u j Hok Hu Hj. pose proof (sc_row_len k acc sc u [] Hok Hu) as Hrl.
+  destruct Hok as [Hlen _]. split.
+  - unfold score_at. apply nth_In. lia.
+  - apply nth_In. lia.
+Qed.
+
+Lemma live_at_col : forall k acc u j, (1 <= k)%nat -> legal k acc -> 0 <= u < pow4 k -> 0 <= j < 4 ->
+  memZ ((u * 4 + j) mod pow4 k) (live_entries (get_row acc u)) = true ->
+  entry acc u j = (u * 4 + j) mod pow4 k /\ 0 <= (u * 4 + j) mod pow4 k.
+Proof.
+  intros k acc u j Hk HL Hu Hj Hm. apply memZ_In in Hm.
+  destruct (live_entry_col k acc u _ Hk HL Hu Hm) as [_ [H2 H3]].
+  destruct (latter_column k u j Hk Hu Hj) as [_ C].
+  replace (u * 4 + j) with (4 * u + j) in * by lia. rewrite C in H2. split; assumption.
+Qed.
+
+(* one call *)
+Theorem remove_step : forall k acc ins del acc' m' u v scs, (1 <= k)%nat -> legal k acc ->
+  remove_nasty_arc acc (accessor_to_latter_map acc) ins del = Ok (acc', m', (u, v), scs) ->
+  legal k acc' /\ m' = accessor_to_latter_map acc'
+  /\ exists j sc, 0 <= j < 4 /\ 0 <= u < pow4 k /\ entry acc u j = v /\ 0 <= v
+       /\ calculate_intersection_score (accessor_to_latter_map acc) k ins del = Ok sc
+       /\ (forall u' j', 0 <= u' < pow4 k -> 0 <= j' < 4 -> score_at sc u' j' <= score_at sc u j)
+       /\ entry acc' u j = -1
+       /\ (forall u' j', 0 <= u' < pow4 k -> 0 <= j' < 4 -> (u', j') <> (u, j) -> entry acc' u' j' = entry acc u' j')
+       /\ scs = filter (fun x => 0 <? x) (concat sc)
+       /\ arc_count acc' = arc_count acc - 1.
+Proof.
+  intros k acc ins del acc' m' u v scs Hk HL H.
+  pose proof (legal_len k acc HL) as Hlen. pose proof (pow4_pos k) as Hp.
+  destruct (score_spec k acc ins del Hk HL) as [sc [Esc Hok]].
+  unfold remove_nasty_arc in H. rewrite Hlen, log4_pow4, Esc in H. cbn [bind] in H. cbv zeta in H.
+  set (flat := concat sc) in *. set (mx := maxZ flat (hd 0 flat)) in *.
+  match type of H with context [match ?X with [] => _ | _ => _ end] => destruct X as [|former rest] eqn:EF end;
+    [discriminate|].
+  apply filter_head_In in EF. destruct EF as [Hfin Hfmem].
+  apply memZ_In in Hfmem. apply filter_In in Hfmem. destruct Hfmem as [_ Hrowmx]. apply memZ_In in Hrowmx.
+  unfold obtain_vertices in Hfin. apply listed_from_In in Hfin. rewrite Hlen in Hfin.
+  replace (former - 0) with former in Hfin by lia. destruct Hfin as [Hfr Hlisted].
+  assert (Hfr' : 0 <= former < pow4 k) by lia. clear Hfr.
+  fold (get_row acc former) in Hlisted.
+  set (row := nth (Z.to_nat former) sc []) in *.
+  assert (Hrow_sc : In row sc) by (apply nth_In; destruct Hok as [Hl _]; lia).
+  assert (Hflat : forall x, In x flat -> x <= mx).
+  { intros x Hx. apply (proj2 (maxZ_ge flat (hd 0 flat))). exact Hx. }
+  assert (Hrow_le : forall x, In x row -> x <= mx).
+  { intros x Hx. apply Hflat. unfold flat. apply in_concat. exists row. split; assumption. }
+  destruct (argmax_spec row mx Hrowmx Hrow_le) as [Hcol Hcolmx].
+  rewrite (sc_row_len k acc sc former [] Hok Hfr') in Hcol.
+  set (col := argmaxZ row) in *.
+  destruct (latter_map_content k acc HL) as [_ Hlook]. rewrite Hlook in H.
+  replace (0 <=? former) with true in H by lia. replace (former <? pow4 k) with true in H by lia.
+  rewrite Hlisted in H. cbn [andb] in H.
+  destruct (memZ ((former * 4 + col) mod pow4 k) (live_entries (get_row acc former))) eqn:EM; [|discriminate].
+  inversion H; subst acc' m' u v scs. clear H.
+  destruct (live_at_col k acc former col Hk HL Hfr' ltac:(lia) EM) as [Hent Hlat].
+  set (latter := (former * 4 + col) mod pow4 k) in *.
+  pose proof (good_row_col_row k former _ Hk Hfr' (legal_good_row k acc former HL Hfr'))
+    as [a [b [c [d [E [Ha [Hb [Hc Hd]]]]]]]].
+  assert (Hrl : length (get_row acc former) = 4%nat) by (rewrite E; reflexivity).
+  assert (Hnth : nth (Z.to_nat col) [a; b; c; d] (-1) = latter) by (rewrite <- E; exact Hent).
+  destruct (row_clear a b c d col) as [Hrem [Hlst Hdeg]]; try lia.
+  rewrite Hnth in Hrem. rewrite <- E in Hrem, Hlst, Hdeg.
+  assert (Hentry : forall u' j', 0 <= u' < pow4 k -> 0 <= j' < 4 ->
+            entry (set_entry acc former col (-1)) u' j' =
+            if (u' =? former) && (j' =? col) then -1 else entry acc u' j').
+  { intros u' j' Hu' Hj'. apply entry_set_entry; lia. }
+  split; [|split].
+  - (* legality *)
+    destruct HL as [HLlen [HLrows HLent]]. split; [|split].
+    + unfold set_entry. rewrite set_nth_length. exact HLlen.
+    + unfold set_entry. apply Forall_set_nth; [exact HLrows|]. rewrite set_nth_length. exact Hrl.
+    + intros u' j' Hu' Hj'. rewrite Hentry by assumption.
+      destruct ((u' =? former) && (j' =? col)); [left; reflexivity|apply HLent; assumption].
+  - (* the two views agree *)
+    unfold accessor_to_latter_map, set_entry.
+    replace former with (0 + Z.of_nat (Z.to_nat former)) at 1 by lia.
+    apply lmap_remove_set; [lia|exact Hlisted|exact Hrem|exact Hlst].
+  - exists col, sc. split; [lia|]. split; [exact Hfr'|]. split; [exact Hent|]. split; [exact Hlat|].
+    split; [exact Esc|]. split; [|split; [|split; [|split]]].
+    + intros u' j' Hu' Hj'. unfold score_at at 2. fold row. rewrite Hcolmx.
+      destruct (score_at_In k acc sc u' j' Hok Hu' Hj') as [H1 H2].
+      apply Hflat. unfold flat. apply in_concat. eexists. split; [exact H2|exact H1].
+    + rewrite Hentry by lia. rewrite !Z.eqb_refl. reflexivity.
+    + intros u' j' Hu' Hj' Hne. rewrite Hentry by assumption.
+      destruct ((u' =? former) && (j' =? col)) eqn:Eb; [|reflexivity].
+      exfalso. apply Hne. f_equal; lia.
+    + reflexivity.
+    + unfold set_entry. rewrite arc_count_set by lia. fold (get_row acc former). lia.
+Qed.
+
+(* TARGET STATEMENTS (to be proved, do not change the statements):
 
 (* one call *)
 Theorem remove_step : forall k acc ins del acc' m' u v scs, (1 <= k)%nat -> legal k acc ->
@@ -50,3 +462,5 @@ Theorem remove_history : forall flags k acc, (1 <= k)%nat -> legal k acc ->
   forall i acc' m' arc, nth_error (run_removals flags acc (accessor_to_latter_map acc)) i = Some (acc', m', arc) ->
   legal k acc' /\ m' = accessor_to_latter_map acc' /\ arc_count acc' = arc_count acc - Z.of_nat (S i).
 *)
+
+Print Assumptions score_spec.
